@@ -43,15 +43,15 @@ parsec_redistribute_New(parsec_tiled_matrix_t *dcY,
         return NULL;
     }
 
-    if( (disi_Y+size_row > dcY->lmt*dcY->mb) ||
-        (disj_Y+size_col > dcY->lnt*dcY->nb) ){
+    if( ((int64_t)disi_Y+size_row > (int64_t)dcY->lmt*dcY->mb) ||
+        ((int64_t)disj_Y+size_col > (int64_t)dcY->lnt*dcY->nb) ){
         if( 0 == dcY->super.myrank )
             parsec_warning("ERROR: Submatrix exceed SOURCE size\n");
         return NULL;
     }
 
-    if( (disi_T+size_row > dcT->lmt*dcT->mb)
-        || (disj_T+size_col > dcT->lnt*dcT->nb) ){
+    if( ((int64_t)disi_T+size_row > (int64_t)dcT->lmt*dcT->mb)
+        || ((int64_t)disj_T+size_col > (int64_t)dcT->lnt*dcT->nb) ){
         if( 0 == dcY->super.myrank )
             parsec_warning("ERROR: Submatrix exceed TARGET size\n");
         return NULL;
